@@ -155,14 +155,14 @@ def gen_tf(rng, so, tier):
 
 def gen_cases(tier, seed):
     rng = random.Random(1000003 * seed + (17 if tier == "thorough" else 5))
-    mult = 1 if tier == "quick" else 4
+    mult = 1 if tier == "quick" else 3
     plan = [("ds", "full", 4), ("ds", "quant_pmap", 3), ("ds", "quant_repl", 2), ("ds", "compress", 3), ("ds", "fd", 3),
             ("ds", "fd_avg", 3), ("ds", "sharded", 2), ("sm3", "sm3", 3), ("tf", "SHAMPOO", 5), ("tf", "SKETCHY", 5),
             ("tfraw", "SHAMPOO", 1), ("tfraw", "SKETCHY", 2)]
     cases = []
     for kind, variant, n in plan:
         for _ in range(n * mult):
-            T = rng.choice([3, 4, 4, 5]) if tier == "quick" else rng.choice([4, 5, 6, 7])
+            T = rng.choice([3, 4, 4, 5]) if tier == "quick" else rng.choice([4, 5, 5, 6])
             if kind == "ds":
                 cfg, shapes = gen_ds(rng, variant, tier)
                 # (frequent_directions under jax_enable_x64 fails a lax.cond dtype check inside the package: C07's subject)
@@ -193,22 +193,15 @@ def gen_cases(tier, seed):
 
 
 def corpus_cases():
-    """Witnesses of the repaired defects D3 and D13 (corpus/reproducers/d3.py, d13.py): must pass now."""
-    d3 = {"kind": "ds", "variant": "fd_avg",
-          "cfg": {"block_size": 8, "start_preconditioning_step": 1, "frequent_directions": True, "average_grad": True,
-                  "reuse_preconditioner": True, "compression_rank": 2, "skip_preconditioning_rank_lt": 2,
-                  "statistics_compute_steps": 2, "preconditioning_compute_steps": 2},
-          "shapes": [[6, 6], [6]], "tree": "dict", "T": 4, "gseed": 3, "scales": [1.0, 1.0, 1.0, 1.0], "x64": False,
-          "child_k": 2, "corpus": "d3"}
-    d13 = {"kind": "tfraw", "variant": "SKETCHY",
-           "cfg": {"so_type": "SKETCHY", "sk": {"rank": 2, "update_freq": 1, "decay": 0.999, "add_ggt": False, "ekfac": False,
-                                                "lin_tail": False, "relative_epsilon": True, "epsilon": 1e-7}},
-           "shapes": [[4, 3]], "tree": "dict", "T": 3, "gseed": 13, "scales": [1.0, 1.0, 1.0], "x64": False, "child_k": 2,
-           "corpus": "d13"}
-    d13b = dict(d13, kind="tf", cfg=dict(d13["cfg"], graft="RMSPROP", graft_decay=0.999, start=0, skip_rank1=True,
-                                         min_dim_size_to_factor=128, merge_dims=1024, mom_decay=0.9, ema=False, nesterov=True,
-                                         wd=0.0, wd_after=True, lr_schedule=False), corpus="d13-tearfree")
-    return [d3, d13, d13b]
+    """Witnesses of the repaired defects D3 and D13 (corpus/reproducers/d3.py, d13.py) and minimised past failures:
+    every `cases` entry of corpus/C14/*.json. They run first and must pass."""
+    d = os.path.join(kit.ROOT, "corpus", "C14")
+    out = []
+    if os.path.isdir(d):
+        for fn in sorted(os.listdir(d)):
+            if fn.endswith(".json"):
+                out.extend(json.load(open(os.path.join(d, fn))).get("cases", []))
+    return out
 
 
 # ============================================================================ worker side: the real optimizers
